@@ -27,24 +27,6 @@ from vf import build, coq
 from vf.core import REPO, VERIF, sh
 
 HERE = os.path.dirname(os.path.abspath(__file__))
-DEFECT_KEY = "FN-optout-exit"
-
-# --------------------------------------------------------------------------- mode
-def repaired(ctx, key=None, envname="VERIF_C19_REPAIRED"):
-    """The pinned tree has the defect DESIGN.md section 9 #10 (key FN-optout-exit) and the
-    exit-by-exception defect (key exit-by-exception-runpy-returns).  The committed known-findings.txt
-    decides which code the check expects: a `fixed: property=C19 ... <key> ...` line = the repaired
-    code (model with the repair, no exemption); otherwise the code as found."""
-    key = key or DEFECT_KEY
-    if os.environ.get(envname) in ("0", "1"):      # for trying a repair on a scratch worktree
-        return os.environ[envname] == "1"
-    return any("property=C19" in l and key in l for l in ctx.kf.fixed)
-
-
-def repaired2(ctx):
-    from props import c19_e2e
-    return repaired(ctx, c19_e2e.SYSEXIT_KEY, "VERIF_C19_REPAIRED2")
-
 
 # --------------------------------------------------------------------------- Coq literals
 def cs(s):
@@ -188,9 +170,7 @@ def flatten(funcs, trees, out):
     return out
 
 
-def gen_case(rng, allow_mixed, witness=None):
-    if witness:
-        return witness
+def gen_case(rng, allow_mixed=True):
     pymain = rng.choice([MAIN, MAIN, MAIN, MAIN, "/s.py", None])
     uni = func_universe(rng, pymain)
     picks = rng.sample(uni, rng.randrange(3, 9))
@@ -220,19 +200,41 @@ def gen_case(rng, allow_mixed, witness=None):
     is_c = [f["t"] == "c" for f in funcs]
     forest = gen_forest(rng, len(funcs), is_c, [rng.choice([3, 6, 10, 16])], rng.choice([2, 4, 7]))
     raw = []
-    if rng.random() < 0.3:
+    r = rng.random()
+    if r < 0.25:
         if rng.random() < 0.3:
             forest = []
         for _ in range(rng.randrange(1, 9)):
             i = rng.randrange(len(funcs))
             raw.append((rng.choice(["c_call", "c_return", "c_exception"] if is_c[i] else ["call", "return", "return"]), i))
+    elif r < 0.4 and not all(is_c):
+        # the script ended by an exception: frames entered before tracing started return (runpy)
+        pys = [i for i in range(len(funcs)) if not is_c[i]]
+        raw = [("return", rng.choice(pys)) for _ in range(rng.randrange(1, 4))]
+        tags.add("returns-of-frames-never-called")
     return {"env": env, "lib": lib, "pymain": pymain, "funcs": funcs, "forest": forest, "raw": raw, "tags": sorted(tags)}
 
 
-WITNESS = {   # tests/s-abc.py with -F a -N .getpid (below the module frame)
-    "env": ["a", "!.getpid"], "lib": "SINGLE", "pymain": MAIN,
-    "funcs": [py("__main__", "a", MAIN), py("__main__", "b", MAIN), py("__main__", "c", MAIN), {"t": "c", "expr": "os.getpid"}],
-    "forest": [(0, False, [(1, False, [(2, False, [(3, False, [])])])])], "raw": [], "tags": ["witness"]}
+WITNESSES = [
+    # tests/s-abc.py with -F a -N .getpid (below the module frame): was unbalanced before fix 5445264
+    {"env": ["a", "!.getpid"], "lib": "SINGLE", "pymain": MAIN,
+     "funcs": [py("__main__", "a", MAIN), py("__main__", "b", MAIN), py("__main__", "c", MAIN), {"t": "c", "expr": "os.getpid"}],
+     "forest": [(0, False, [(1, False, [(2, False, [(3, False, [])])])])], "raw": [], "tags": ["witness:-F a -N .getpid"]},
+    # the same inside a library call (libcall_count drift)
+    {"env": ["a", "!.getpid"], "lib": "SINGLE", "pymain": MAIN,
+     "funcs": [py("__main__", "a", MAIN), py("__main__", "b", MAIN), {"t": "c", "expr": "sorted"}, {"t": "c", "expr": "os.getpid"},
+               {"t": "c", "expr": "len"}],
+     "forest": [(0, False, [(2, False, [(1, False, [(3, False, []), (4, False, [])])])])], "raw": [], "tags": ["witness:drift"]},
+    # a(){ sys.exit() } then the returns of the two runpy frames: were two unpaired exits before fix d27b480
+    {"env": None, "lib": "SINGLE", "pymain": MAIN,
+     "funcs": [py("__main__", "a", MAIN), {"t": "c", "expr": "sys.exit"}, py("runpy", "_run_code", "/u/l/runpy.py"),
+               py("runpy", "_run_module_as_main", "/u/l/runpy.py")],
+     "forest": [(0, False, [(1, True, [])])], "raw": [("return", 2), ("return", 3)], "tags": ["witness:sys.exit-runpy-returns"]},
+    {"env": None, "lib": "NESTED", "pymain": MAIN,
+     "funcs": [py("__main__", "a", MAIN), {"t": "c", "expr": "sys.exit"}, py("runpy", "_run_code", "/u/l/runpy.py"),
+               py("runpy", "_run_module_as_main", "/u/l/runpy.py")],
+     "forest": [(0, False, [(1, True, [])])], "raw": [("return", 2), ("return", 3)], "tags": ["witness:sys.exit-runpy-returns"]},
+]
 
 
 def forest_tags(k):
@@ -261,7 +263,7 @@ def forest_tags(k):
                        else "N" if env[0].startswith("!") else "F"))
     t.add("lib:" + k["lib"])
     t.add("pymain:" + ("unset" if k["pymain"] is None else "root" if k["pymain"] == "/s.py" else "dir"))
-    if k["raw"]:
+    if k["raw"] and not all(kd == "return" for kd, _ in k["raw"]):
         t.add("ill-formed-tail")
     if not k["forest"]:
         t.add("no-forest")
@@ -342,30 +344,28 @@ def case_json(k):
     return {kk: k[kk] for kk in ("env", "lib", "pymain", "funcs", "forest", "raw")}
 
 
-def evaluate(ctx, cases, fixed, name="cases", fixed2=False):
+def evaluate(ctx, cases, name="cases"):
     defs = "Definition cases : list case := [\n%s\n].\n" % ";\n".join(c_case(k) for k in cases)
-    defs += "Definition wf (k : case) : bool := match k_raw k with [] => true | _ => false end.\n"
-    fx = coq.coq_bool(fixed)
+    # judged by the specification: well-formed streams, also when followed by returns of frames that were never
+    # called under the profiler (a script ended by an exception)
+    defs += ("Definition wf (k : case) : bool := forallb (fun p => match fst p with Return => true | _ => false end) (k_raw k).\n")
     res = coq.run_cases(ctx, name, PRE, defs, [
-        ("mismatch", "bad_indices (agrees %s %s) cases 0" % (fx, coq.coq_bool(fixed2))),
+        ("mismatch", "bad_indices agrees cases 0"),
         ("violations", "bad_indices (fun k => negb (wf k) || ok_case k) cases 0"),
         ("unbalanced", "bad_indices (fun k => negb (wf k) || ok_balanced k) cases 0"),
-        ("defect_class", "bad_indices (fun k => negb (wf k && in_defect_class k)) cases 0"),
     ])
     if res is None:
         return None
     return {k: coq.parse_nat_list(v) for k, v in res.items()}
 
 
-def scripted(ctx, objdir, fixed):
+def scripted(ctx, objdir):
     rng = ctx.rng
     impl = Impl(ctx, objdir)
-    cases = [dict(WITNESS)]
-    n = ctx.n(200, 2000)
+    cases = [dict(w) for w in WITNESSES]
+    n = ctx.n(200, 1700)
     for i in range(n):
-        # mixed -F/-N sets (where the defect class lives) only in a part of the cases; Coq decides exactly
-        # (nobad) which well-formed cases are inside the defect class
-        cases.append(gen_case(rng, allow_mixed=(fixed or i % 3 == 0)))
+        cases.append(gen_case(rng))
     for k in cases:
         r = impl.run(k)
         k.update({"hooks": r["hooks"], "symtab": r["symtab"], "rfuncs": r["rfuncs"], "rc": r["rc"], "err": r["err"],
@@ -373,7 +373,7 @@ def scripted(ctx, objdir, fixed):
     return cases
 
 
-def scripted_verdict(ctx, cases, res, fixed):
+def scripted_verdict(ctx, cases, res):
     if res is None:
         return
     for i, k in enumerate(cases):
@@ -389,43 +389,20 @@ def scripted_verdict(ctx, cases, res, fixed):
             ctx.violation("hook called with unexpected arguments (exit child / parent not 0)",
                           {"mode": "scripted", "case": case_json(k)}, True)
             return
-    defect = set(res["defect_class"])
-    viol = [i for i in sorted(set(res["violations"]) | set(res["unbalanced"]))]
-    new = [i for i in viol if fixed or i not in defect]
-    known = [i for i in viol if not fixed and i in defect]
-    ctx.extra["scripted_cases_in_defect_class"] = len(defect)
-    ctx.extra["scripted_defect_class_violations"] = len(known)
-    for i in new[:3]:
+    viol = sorted(set(res["violations"]) | set(res["unbalanced"]))
+    for i in viol[:3]:
         k = cases[i]
         what = "unbalanced hook calls" if i in res["unbalanced"] else "trace is not the selected call forest"
         ctx.violation("C19 violated by the real uftrace_python.so on a well-formed event stream: %s "
                       "(filters %s, libcall %s)" % (what, k["env"], k["lib"]),
                       {"mode": "scripted", "case": case_json(k), "impl_hooks": k["hooks"], "impl_symtab": k["symtab"]}, True)
-    if res["mismatch"] and not new:
+    if res["mismatch"] and not viol:
         k = cases[res["mismatch"][0]]
         ctx.violation("model and implementation of python/trace-python.c disagree on %d scripted event streams; the "
                       "property checker accepts the implementation's output on every explored case" % len(res["mismatch"]),
-                      {"mode": "scripted", "correspondence": "C19.Model.arun (c_fixed=%s) vs uftrace_trace_python" % fixed,
+                      {"mode": "scripted", "correspondence": "C19.Model.trace_python vs uftrace_trace_python",
                        "case": case_json(k), "impl_hooks": k["hooks"], "impl_symtab": k["symtab"]}, False)
     ctx.extra["disagreements_checked"] = ctx.extra.get("disagreements_checked", 0) + len(cases)
-    # the dedicated witness of the known defect is case 0
-    w_bad = 0 in viol
-    if fixed:
-        pass      # already a violation above if it fails
-    elif w_bad:
-        text = ("`-F a -N .getpid` on tests/s-abc.py: the c_return of the opt-out function is traced although its "
-                "c_call was skipped: 3 entries, 4 exits (unpaired cygprof exit; c, b, a closed at the times of getpid, c, b)")
-        if ctx.kf.listed(ctx.prop, DEFECT_KEY):
-            ctx.known_finding(DEFECT_KEY, text, True, {"mode": "scripted", "case": case_json(cases[0])})
-        else:
-            # not yet dispositioned by the lead (neither `finding:` nor `fixed:` in known-findings.txt):
-            # reported in the log and the evidence, the model stays faithful (C19_unbalanced_refuted)
-            ctx.log("PENDING-FINDING property=C19 key=%s (not listed in known-findings.txt): %s" % (DEFECT_KEY, text))
-            ctx.extra["pending_findings"] = [{"key": DEFECT_KEY, "text": text, "witness": case_json(cases[0]),
-                                              "proposed_fix": "proposed-fixes/C19-1.diff"}]
-    else:
-        ctx.log("defect %s no longer reproduces on the witness; add `fixed: property=C19 ...` to known-findings.txt "
-                "to switch the check to the repaired model" % DEFECT_KEY)
 
 
 # --------------------------------------------------------------------------- entry points
@@ -435,7 +412,7 @@ def setup(ctx):
     return objdir
 
 
-def common_meta(ctx, fixed):
+def common_meta(ctx):
     ctx.rule = ("scripted: a case = (UFTRACE_FILTER, libcall mode, UFTRACE_PYMAIN, 3-9 functions, 1-3 call trees "
                 "<= 16 calls [+ ill-formed tail]) fed to the real uftrace_python.trace(); distinct = distinct "
                 "(config, event stream); non-trivial = at least one hook call or a filter set.  e2e: a case = "
@@ -444,7 +421,7 @@ def common_meta(ctx, fixed):
         "Coq 8.16.1 kernel incl. vm_compute; no axioms (Print Assumptions: closed under the global context)",
         "hand-written model coq/theories/C19/Model.v of python/trace-python.c (init_filters, match_filter [ERE subset "
         "^ $ . literals], apply_filters, can_trace, event dispatch, get_python_funcname/get_c_funcname, code_tree/symtab) "
-        "with c_fixed=%s" % ("true" if fixed else "false (code as found)"),
+        "incl. the call-depth test (depth_guard)",
         "harness/py/c19_driver.py (synthetic frame objects, real builtin objects), harness/c/c19_fakemcount.c (logs hook calls), "
         "props/c19.py (parsers of python.fake.sym and of `uftrace replay` output, program generator)",
         "CPython 3.11 profile-event discipline (call/return, c_call/c_return|c_exception) = the forests of the theorems",
@@ -452,7 +429,7 @@ def common_meta(ctx, fixed):
     ctx.assume = [
         "well-formed event streams for the theorems: CPython emits a return for every call (also on exceptions), one "
         "call/return pair per generator resume (also for close()/throw(), observed on 3.11.7), c_return or c_exception for "
-        "every c_call; frames entered before sys.setprofile() (runpy) are outside - see C19_exit_by_exception_refuted",
+        "every c_call; returns of frames entered before sys.setprofile() (runpy, when the script ends by an exception) may follow",
         "single thread (libcall_count and filter_state are process-global by design)",
         "counters do not overflow int (fewer than 2^31 nested calls)",
         "filter patterns within the modelled ERE subset (^, $, '.', literals) or plain names; UFTRACE_PATTERN unset",
@@ -461,29 +438,27 @@ def common_meta(ctx, fixed):
 
 
 def run(ctx):
-    fixed = repaired(ctx)
-    common_meta(ctx, fixed)
+    common_meta(ctx)
     objdir = setup(ctx)
-    cases = scripted(ctx, objdir, fixed)
-    res = evaluate(ctx, cases, fixed, fixed2=repaired2(ctx))
+    cases = scripted(ctx, objdir)
+    res = evaluate(ctx, cases)
     for k in cases:
         ev = flatten(k["funcs"], k["forest"], []) + list(k["raw"])
         ctx.case(key=(k["env"], k["lib"], k["pymain"], json.dumps(k["funcs"], sort_keys=True), tuple(ev)),
                  nontrivial=bool(k["hooks"]) or bool(k["env"]), tags=forest_tags(k), size=len(ev),
                  sample={"filters": k["env"], "libcall": k["lib"], "events": len(ev), "hooks": len(k["hooks"]),
                          "symbols": [n for n, _ in k["symtab"]]} if len(ctx.samples) < 3 and k["hooks"] else None)
-    scripted_verdict(ctx, cases, res, fixed)
+    scripted_verdict(ctx, cases, res)
     from props import c19_e2e
-    c19_e2e.run(ctx, objdir, fixed)
+    c19_e2e.run(ctx, objdir)
 
 
 def replay(ctx, obj):
-    fixed = repaired(ctx)
-    common_meta(ctx, fixed)
+    common_meta(ctx)
     objdir = setup(ctx)
     if obj.get("mode") == "e2e":
         from props import c19_e2e
-        c19_e2e.replay(ctx, objdir, fixed, obj)
+        c19_e2e.replay(ctx, objdir, obj)
         return
     c = obj.get("case")
     if not c:
@@ -498,17 +473,8 @@ def replay(ctx, obj):
               "symfile_ok": r.get("symfile_ok", False), "hook_parent_nonzero": r["hook_parent_nonzero"]})
     ctx.log("replayed: hooks", k["hooks"], "symtab", k["symtab"])
     ctx.case(key="replay", sample={"hooks": k["hooks"]})
-    # case 0 is the witness slot: keep it occupied by the witness so that indices mean the same
-    cases = [k]
-    res = evaluate(ctx, cases, fixed, name="replay", fixed2=repaired2(ctx))
-    if res is not None:
-        viol = sorted(set(res["violations"]) | set(res["unbalanced"]))
-        if viol:
-            ctx.violation("C19 violated (replay): the trace is not the selected call forest / unbalanced",
-                          {"mode": "scripted", "case": case_json(k), "impl_hooks": k["hooks"], "impl_symtab": k["symtab"]}, True)
-        elif res["mismatch"]:
-            ctx.violation("model and implementation disagree (replay)", {"mode": "scripted", "case": case_json(k),
-                                                                         "impl_hooks": k["hooks"]}, False)
+    res = evaluate(ctx, [k], name="replay")
+    scripted_verdict(ctx, [k], res)
 
 
 def tuple_tree(t):
